@@ -1,7 +1,7 @@
 /-
 L-drop (session level): rollback-mode `advance_frame`, remote-input arrivals and locally detected
 drops (`disconnect_player`, the Disconnected event of an endpoint) keep the session invariant with
-dead players, for non-sparse sessions. After the first call that follows a drop, every frame of
+dead players, in either saving mode. After the first call that follows a drop, every frame of
 the game's timeline beyond the dropped player's last frame carries the blank input with status
 Disconnected — including the frames that had been simulated with predictions — and every frame up
 to it the real input.
@@ -117,7 +117,6 @@ it. For each of those, either its last frame is not behind the current frame, or
 structure SessInvD (s : P2P) (gh : DGhost) (t0 : TLState) (reqs : List Request) (st0 : List ConnStatus) : Prop where
   tinv : TInvD s.pred s.sync st0 gh t0 reqs
   marks : Marks st0 s.localConnectStatus
-  nonsparse : s.sparse = false
   asked : ∀ p, p < s.sync.queues.length → (rget s.localConnectStatus p).disconnected = false →
     Asked (rget s.sync.queues p) s.sync.currentFrame
   pend : ∀ p, p < s.sync.queues.length → (rget st0 p).disconnected = false →
@@ -141,16 +140,19 @@ structure SessInvD (s : P2P) (gh : DGhost) (t0 : TLState) (reqs : List Request) 
   /-- nothing is ever added to a dead player's queue: once through a rollback phase it flags nothing -/
   deadClean : ∀ p, p < s.sync.queues.length → (rget st0 p).disconnected = true →
     (rget s.sync.queues p).firstIncorrectFrame = NULL_FRAME
+  /-- sparse saving: the state to roll back to lies beyond every given-up player's last frame -/
+  saved : s.sparse = true → ∀ p, p < s.sync.queues.length → gh.gone p →
+    (rget s.localConnectStatus p).lastFrame < s.sync.lastSavedFrame
 
 theorem SessInvD_congr (s s' : P2P) (gh : DGhost) (t0 : TLState) (reqs : List Request) (st0 : List ConnStatus)
     (h : SessInvD s gh t0 reqs st0) (hc : P2P.SameCore s s') : SessInvD s' gh t0 reqs st0 := by
   have hlp : s'.localPlayerHandles = s.localPlayerHandles := by unfold P2P.localPlayerHandles; rw [hc.handles]
-  exact ⟨by rw [hc.pred, hc.sync]; exact h.tinv, by rw [hc.statuses]; exact h.marks, by rw [hc.sparse]; exact h.nonsparse,
+  exact ⟨by rw [hc.pred, hc.sync]; exact h.tinv, by rw [hc.statuses]; exact h.marks,
     by rw [hc.sync, hc.statuses]; exact h.asked, by rw [hc.sync, hc.statuses, hc.disconnectFrame]; exact h.pend,
     by rw [hc.sync, hc.statuses]; exact h.status, by rw [hc.sync, hc.statuses, hlp]; exact h.remote,
     by rw [hc.statuses, hlp]; exact h.localAlive,
     by rw [hc.sync, hc.statuses, hc.disconnectFrame]; exact h.safe, by rw [hc.disconnectFrame]; exact h.dfok,
-    by rw [hc.sync]; exact h.deadClean⟩
+    by rw [hc.sync]; exact h.deadClean, by rw [hc.sparse, hc.sync, hc.statuses]; exact h.saved⟩
 
 /-- `confirmed_frame` is at most every connected player's last frame. -/
 theorem confirmedFrame_leD (s : P2P) (c : Frame) (h : s.confirmedFrame = .ok c) :
@@ -191,9 +193,12 @@ theorem SessInvD_of_settledD (s s' : P2P) (gh gh' : DGhost) (t0 : TLState) (reqs
     (st0 : List ConnStatus) (h : SessInvD s gh t0 reqs st0) (hs : SettledD s s' gh gh' t0 reqs') :
     SessInvD s' gh' t0 reqs' s'.localConnectStatus := by
   have hlp : s'.localPlayerHandles = s.localPlayerHandles := by unfold P2P.localPlayerHandles; rw [hs.rest.1]
-  refine ⟨by rw [hs.pred, hs.statuses]; exact hs.inv, Marks.refl _, by rw [hs.sparse]; exact h.nonsparse,
+  refine ⟨by rw [hs.pred, hs.statuses]; exact hs.inv, Marks.refl _,
     by rw [hs.statuses]; exact hs.asked, ?_, ?_, ?_, by rw [hs.statuses, hlp]; exact h.localAlive, ?_, Or.inl hs.df,
-    fun p hp _ => hs.clean p hp⟩
+    fun p hp _ => hs.clean p hp,
+    fun hsp p hp hg => by
+      rw [hs.statuses]
+      exact hs.saved (by rw [← hs.sparse]; exact hsp) p (by rw [← hs.nq]; exact hp) (by rw [← hs.gone]; exact hg)⟩
   · intro p _ h0 h1
     rw [h0] at h1; cases h1
   · intro p hp hng
@@ -251,6 +256,10 @@ theorem setLastConfirmed_specD (s : P2P) (sy' : SyncLayer) (gh : DGhost) (t0 : T
     · exact Int.le_trans (Int.min_le_left _ _) (Int.min_le_left _ _)
     · exact Int.min_le_left _ _
   have hfrcur : fr ≤ s.sync.currentFrame := by rw [← hfr]; exact Int.min_le_right _ _
+  have hfrls : s.sparse = true → fr ≤ s.sync.lastSavedFrame := by
+    intro hsp
+    rw [← hfr, if_pos hsp]
+    exact Int.le_trans (Int.min_le_left _ _) (Int.min_le_right _ _)
   obtain ⟨_, hset⟩ := ensure_bind_ok hset
   by_cases hpos : fr > 0
   · simp only [hpos, if_true] at hset
@@ -286,12 +295,23 @@ theorem setLastConfirmed_specD (s : P2P) (sy' : SyncLayer) (gh : DGhost) (t0 : T
         have hq := h.tinv.sync.live p hp hng0
         rw [hpc] at hq ⊢
         exact QI_discard s.pred _ _ _ _ _ _ (fr - 1) hq (h.asked p hp hc) hlt (hpt p hp)
+    have hsaved : s.sparse = true → ∀ p, p < qs.length → gone' p →
+        (rget s.localConnectStatus p).lastFrame < s.sync.lastSavedFrame := by
+      intro hsp p hp hg
+      have hp0 : p < s.sync.queues.length := by rw [← hl]; exact hp
+      by_cases hg0 : gh.gone p
+      · exact h.saved hsp p hp0 hg0
+      · rcases hg with hg | ⟨_, hd, hx⟩
+        · exact absurd hg hg0
+        · have hst := h.status p hp0 hg0
+          have := hfrls hsp
+          omega
     refine ⟨⟨gh.specs, gh.hists, gh.T, gone'⟩, ⟨⟨⟨h.tinv.sync.cur, by show _ = qs.length; rw [hl]; exact h.tinv.sync.nq, ?_, ?_⟩,
-      h.tinv.exec, ?_, ?_⟩, Marks.refl _, h.nonsparse, ?_, ?_, ?_, ?_, h.localAlive, ?_, h.dfok,
+      h.tinv.exec, ?_, ?_⟩, Marks.refl _, ?_, ?_, ?_, ?_, h.localAlive, ?_, h.dfok,
       fun p hp _ => by
         have hp0 : p < s.sync.queues.length := by rw [← hl]; exact hp
         show (rget qs p).firstIncorrectFrame = NULL_FRAME
-        rw [hfields p hp0]; exact hclean p hp0⟩, rfl, rfl, fun p hg => Or.inl hg, rfl, hl, ?_⟩
+        rw [hfields p hp0]; exact hclean p hp0, hsaved⟩, rfl, rfl, fun p hg => Or.inl hg, rfl, hl, ?_⟩
     · -- gone
       intro p hp hg
       have hp0 : p < s.sync.queues.length := by rw [← hl]; exact hp
@@ -363,8 +383,8 @@ theorem setLastConfirmed_specD (s : P2P) (sy' : SyncLayer) (gh : DGhost) (t0 : T
   · simp only [hpos, if_false] at hset
     have := pure_ok hset
     subst this
-    exact ⟨gh, ⟨⟨SyncInvD_congr h.tinv.sync rfl rfl, h.tinv.exec, h.tinv.rows, h.tinv.deadRows⟩, h.marks, h.nonsparse,
-      h.asked, h.pend, h.status, h.remote, h.localAlive, h.safe, h.dfok, h.deadClean⟩, rfl, rfl, fun _ hg => hg, rfl, rfl, hclean⟩
+    exact ⟨gh, ⟨⟨SyncInvD_congr h.tinv.sync rfl rfl, h.tinv.exec, h.tinv.rows, h.tinv.deadRows⟩, h.marks,
+      h.asked, h.pend, h.status, h.remote, h.localAlive, h.safe, h.dfok, h.deadClean, h.saved⟩, rfl, rfl, fun _ hg => hg, rfl, rfl, hclean⟩
 
 /-- Replacing the queue, stream and last frame of one connected player. -/
 theorem SessInvD_update (s : P2P) (gh : DGhost) (t0 : TLState) (reqs : List Request) (st0 : List ConnStatus)
@@ -391,8 +411,15 @@ theorem SessInvD_update (s : P2P) (gh : DGhost) (t0 : TLState) (reqs : List Requ
   have hngp : ¬ gh.gone p := fun hg => by
     have := (h.tinv.sync.gone p hp hg).dead; rw [hc0] at this; cases this
   have hne : ∀ i, gh.gone i → i ≠ p := fun i hg hip => hngp (hip ▸ hg)
+  have hsaved : s.sparse = true → ∀ g, g < (rset s.sync.queues p q').length → gh.gone g →
+      (rget (rset s.localConnectStatus p (⟨false, lf⟩ : ConnStatus)) g).lastFrame < s.sync.lastSavedFrame := by
+    intro hsp g hg hgg
+    rw [hlen] at hg
+    have hgp : g ≠ p := hne g hgg
+    rw [rget_rset_ne _ _ _ _ (fun h => hgp h.symm)]
+    exact h.saved hsp g hg hgg
   refine ⟨⟨⟨h.tinv.sync.cur, by rw [rset_length, hlen]; exact hn0, ?_, ?_⟩, h.tinv.exec, ?_, ?_⟩, ⟨?_, ?_, ?_⟩,
-    h.nonsparse, ?_, ?_, ?_, ?_, ?_, ?_, h.dfok, ?_⟩
+    ?_, ?_, ?_, ?_, ?_, ?_, h.dfok, ?_, hsaved⟩
   rotate_right
   · intro i hi hd
     show (rget (rset s.sync.queues p q') i).firstIncorrectFrame = NULL_FRAME
@@ -524,7 +551,10 @@ theorem remoteInput_specD (s s' : P2P) (gh : DGhost) (t0 : TLState) (reqs : List
     (hev : s.handleEventCore now (.input inp player) handles addr = .ok s') :
     ∃ gh' st0', SessInvD s' gh' t0 reqs st0' ∧ gh'.T = gh.T ∧ gh'.gone = gh.gone ∧
       s'.sync.currentFrame = s.sync.currentFrame ∧ s'.handles = s.handles ∧ s'.pred = s.pred ∧
-      s'.sync.queues.length = s.sync.queues.length := by
+      s'.sync.queues.length = s.sync.queues.length ∧ s'.disconnectFrame = s.disconnectFrame ∧
+      (∀ p, (gh.specs p).vals.length ≤ (gh'.specs p).vals.length) ∧
+      (∀ p, (rget s'.localConnectStatus p).disconnected = (rget s.localConnectStatus p).disconnected) ∧
+      (∀ p, (rget s.localConnectStatus p).disconnected = true → rget s'.localConnectStatus p = rget s.localConnectStatus p) := by
   unfold P2P.handleEventCore at hev
   simp only at hev
   obtain ⟨_, hev⟩ := ensure_bind_ok hev
@@ -532,7 +562,7 @@ theorem remoteInput_specD (s s' : P2P) (gh : DGhost) (t0 : TLState) (reqs : List
   · simp only [hd, Bool.not_true, Bool.false_eq_true, if_false] at hev
     have := pure_ok hev
     subst this
-    exact ⟨gh, st0, h, rfl, rfl, rfl, rfl, rfl, rfl⟩
+    exact ⟨gh, st0, h, rfl, rfl, rfl, rfl, rfl, rfl, rfl, fun _ => Nat.le_refl _, fun _ => rfl, fun _ _ => rfl⟩
   have hnd : (rget s.localConnectStatus player).disconnected = false := by simpa using hd
   simp only [hnd, Bool.not_false, if_true] at hev
   obtain ⟨hseq, hev⟩ := ensure_bind_ok hev
@@ -578,7 +608,29 @@ theorem remoteInput_specD (s s' : P2P) (gh : DGhost) (t0 : TLState) (reqs : List
         · exact Or.inl hx
         · right; rw [← hlu]; omega)
   refine ⟨{ gh with specs := fun i => if i = player then ((gh.specs player).submit inp.frame inp.input).1 else gh.specs i },
-    rset st0 player ⟨false, inp.frame⟩, ?_, rfl, rfl, rfl, rfl, rfl, rset_length _ _ _⟩
+    rset st0 player ⟨false, inp.frame⟩, ?_, rfl, rfl, rfl, rfl, rfl, rset_length _ _ _, rfl, ?_, ?_, ?_⟩
+  rotate_left
+  · intro p
+    show _ ≤ (if p = player then _ else gh.specs p).vals.length
+    by_cases hpp : p = player
+    · subst hpp; simp only [if_true]; exact (submit_facts (gh.specs p) inp.frame inp.input).1
+    · simp only [hpp, if_false]; exact Nat.le_refl _
+  · intro p
+    have e := connStatus_eta (rget s.localConnectStatus player) inp.frame hnd
+    show (rget (rset s.localConnectStatus player _) p).disconnected = _
+    by_cases hpp : p = player
+    · subst hpp
+      by_cases hpl : p < s.localConnectStatus.length
+      · rw [rget_rset_eq _ _ _ hpl]
+      · have : ∀ v : ConnStatus, rset s.localConnectStatus p v = s.localConnectStatus := by
+          intro v
+          simp [rset, List.set_eq_of_length_le (by omega : s.localConnectStatus.length ≤ p)]
+        rw [this]
+    · rw [rget_rset_ne _ _ _ _ (fun h => hpp h.symm)]
+  · intro p hdp
+    show rget (rset s.localConnectStatus player _) p = _
+    have hpp : p ≠ player := fun he => by rw [he, hnd] at hdp; cases hdp
+    rw [rget_rset_ne _ _ _ _ (fun h => hpp h.symm)]
   have e := connStatus_eta (rget s.localConnectStatus player) inp.frame hnd
   have hs' : ({ s.setStatus player (fun c => { c with lastFrame := inp.frame }) with
       sync := { s.sync with queues := rset s.sync.queues player q' } } : P2P) =
@@ -807,7 +859,7 @@ theorem rollbackGate_specD (s s' : P2P) (gh : DGhost) (t0 : TLState) (reqs reqs'
     have := pure_ok hg
     simp only [Prod.mk.injEq] at this
     obtain ⟨hs', hr'⟩ := this
-    obtain ⟨c, gh', hc, hok, hsp, hgo, hinv, hcur, hlen, hil, hsame, hask⟩ :=
+    obtain ⟨c, gh', hc, hok, hsp, hgo, hinv, hcur, hlen, hil, hsame, hask, hls1, _⟩ :=
       TInvD_simulate s.pred s.sync sy1 sy1 s.localConnectStatus gh t0 reqs [] ins h.tinv hsim
         (fun r hr => by cases hr) rfl rfl
     simp only [List.append_nil] at hinv
@@ -817,8 +869,13 @@ theorem rollbackGate_specD (s s' : P2P) (gh : DGhost) (t0 : TLState) (reqs reqs'
       by_cases hsk : Skip (rget s.localConnectStatus p) (c : Int)
       · rw [hsame p hp hsk]; exact h.deadClean p hp hsk.1
       · exact (hask p hp hsk).2
-    refine ⟨gh', ⟨hinv, Marks.refl _, h.nonsparse, ?_, ?_, ?_, ?_, h.localAlive, ?_, h.dfok,
-      fun p hp _ => hcl' p (by rw [← hlen]; exact hp)⟩, hsp, hgo, rfl, rfl, rfl, hlen,
+    refine ⟨gh', ⟨hinv, Marks.refl _, ?_, ?_, ?_, ?_, h.localAlive, ?_, h.dfok,
+      fun p hp _ => hcl' p (by rw [← hlen]; exact hp),
+      fun hsp' p hp hg' => by
+        show _ < sy1.advanceFrame.lastSavedFrame
+        have : sy1.advanceFrame.lastSavedFrame = sy1.lastSavedFrame := rfl
+        rw [this, hls1]
+        exact h.saved hsp' p (by rw [← hlen]; exact hp) (by rw [← hgo]; exact hg')⟩, hsp, hgo, rfl, rfl, rfl, hlen,
       Or.inr ⟨c, ins, hc, rfl, hok, hil, hcur⟩⟩
     · intro p hp hconn
       have hp0 : p < s.sync.queues.length := by rw [← hlen]; exact hp
@@ -853,7 +910,7 @@ theorem rollbackGate_specD (s s' : P2P) (gh : DGhost) (t0 : TLState) (reqs reqs'
     subst hs'; subst hr'
     exact ⟨gh, h, rfl, rfl, rfl, rfl, rfl, rfl, Or.inl ⟨rfl, rfl, rfl⟩⟩
 
-/-- **`advance_rollback_frame` with dead players (non-sparse).** `reqs1` are the requests of the
+/-- **`advance_rollback_frame` with dead players.** `reqs1` are the requests of the
 rollback-and-save phase. After them (`SettledD.inv`, `TimelineRightD`): every simulated frame
 beyond the last frame of a player marked disconnected carries the blank input with status
 Disconnected for it — whether the player was marked long ago or since the previous call, in which
@@ -885,11 +942,12 @@ theorem advanceRollbackFrame_specD (s s' : P2P) (gh : DGhost) (t0 : TLState) (re
   obtain ⟨s4, hreg, hgate⟩ := bind_ok hadv
   -- rollback and save
   obtain ⟨gh1, hsettled, hright⟩ := handleRollbackAndSaveD s s1 confirmed t0 reqs reqs1 gh st0 h.tinv h.marks
-    h.nonsparse h.asked h.pend
+    h.asked h.pend
     (fun p hp hg => by
       have := h.safe p hp hg
-      rw [h.marks.last] at this
-      exact ⟨this.1, this.2.1⟩) hrs
+      have hsv := fun hsp => h.saved hsp p hp hg
+      rw [h.marks.last] at this hsv
+      exact ⟨this.1, this.2.1, hsv⟩) hrs
   have hinv1 := SessInvD_of_settledD s s1 gh gh1 t0 reqs reqs1 st0 h hsettled
   -- spectators: network only
   have hc2 := P2P.sendConfirmed_sameCore _ _ _ _ hspec
@@ -1147,7 +1205,9 @@ theorem drop_specD (s s' : P2P) (gh : DGhost) (t0 : TLState) (reqs : List Reques
     SessInvD s' gh t0 reqs st0 ∧ s'.sync = s.sync ∧ s'.handles = s.handles ∧ s'.pred = s.pred ∧
       (∀ g, (rget s.localConnectStatus g).disconnected = true → (rget s'.localConnectStatus g).disconnected = true) ∧
       (∀ g, g ∈ ep.handles → g < s.sync.queues.length → (rget s'.localConnectStatus g).disconnected = true) ∧
-      (∀ g, (rget s'.localConnectStatus g).lastFrame = (rget s.localConnectStatus g).lastFrame) := by
+      (∀ g, (rget s'.localConnectStatus g).lastFrame = (rget s.localConnectStatus g).lastFrame) ∧
+      (s.sync.currentFrame ≤ lastFrame + 1 → s'.disconnectFrame = s.disconnectFrame) ∧
+      (∀ g, g ∉ ep.handles → rget s'.localConnectStatus g = rget s.localConnectStatus g) := by
   obtain ⟨f1, f2, f3, fsync, fdf, flen, fmono, fh, fp, fsp, _, _⟩ := P2P.disconnectAt_fields s s' now handle addr lastFrame ep hpt hep hdrop
   have hlp : s'.localPlayerHandles = s.localPlayerHandles := by unfold P2P.localPlayerHandles; rw [fh]
   have hn1 : s.localConnectStatus.length = s.sync.queues.length := by rw [h.marks.len]; exact h.tinv.sync.nq
@@ -1176,9 +1236,10 @@ theorem drop_specD (s s' : P2P) (gh : DGhost) (t0 : TLState) (reqs : List Reques
         · left; exact Int.min_eq_right hx
     · left; rw [if_neg hgt]
   refine ⟨⟨by rw [fp, fsync]; exact h.tinv, ⟨by rw [flen]; exact h.marks.len, fun p => (f2 p).trans (h.marks.last p),
-      fun p hd => fmono p (h.marks.mono p hd)⟩, by rw [fsp]; exact h.nonsparse, ?_, ?_, ?_, ?_, ?_, ?_, ?_,
-      by rw [fsync]; exact h.deadClean⟩,
-    fsync, fh, fp, fmono, ?_, f2⟩
+      fun p hd => fmono p (h.marks.mono p hd)⟩, ?_, ?_, ?_, ?_, ?_, ?_, ?_,
+      by rw [fsync]; exact h.deadClean,
+      fun hsp p hp hg => by rw [fsync] at hp ⊢; rw [f2]; exact h.saved (by rw [← fsp]; exact hsp) p hp hg⟩,
+    fsync, fh, fp, fmono, ?_, f2, fun hle => by rw [fdf, if_neg (by omega)], f3⟩
   · -- asked
     intro p hp hc
     rw [fsync] at hp ⊢
